@@ -1,6 +1,6 @@
 (* Props/C19.v -- the random generator is the reference MT19937 stream in documented ranges.
    Axiom-free (N, nat, lists). *)
-From Coq Require Import NArith List Arith.
+From Coq Require Import NArith ZArith List Arith.
 From SCAD Require Import Gen.RngConsts Rng.MT Rng.MTSpec Rng.MT_proofs Rng.F32_proofs.
 Local Open Scope N_scope.
 
@@ -31,3 +31,14 @@ Proof. exact (conj f01_den_val f01_lt_1). Qed.
 Theorem C19_unguarded_top_is_one :
   r32 4294967168 = 4294967296 /\ r32 4294967295 = 4294967296 /\ r32 4294967167 = 4294967040.
 Proof. exact r32_top_reaches_one. Qed.
+
+(* i32_minmax(min, max) is in [min, max) for all min < max with max - min <= 2^24 and all 2^32 raw outputs:
+   the f32 product (max-min) * f01 is rounded once (ties to even) and truncated *)
+Theorem C19_i32_minmax_range : forall (mn mx : Z) (u : N), (mn < mx)%Z -> (mx - mn <= 16777216)%Z -> u < 4294967296 ->
+  (mn <= i32_minmax mn mx u < mx)%Z.
+Proof. exact i32_minmax_range. Qed.
+(* f32_0_1 never exceeds 1 - 2^-24 *)
+Theorem C19_f01_max : forall u, u < 4294967296 -> f01_num u <= 4294967040.
+Proof. exact f01_num_le. Qed.
+
+Example C19_i32_nonvacuous : ((-5) < 7 /\ 7 - (-5) <= 16777216)%Z. Proof. split; Lia.lia. Qed.
